@@ -276,11 +276,11 @@ theorem monoFam_once (st : Static) (defs : Defs) (f : Nat) (ih : MonoFam st defs
     | symbol lv name kind ne ref =>
       simp only [asmOnce] at h ⊢
       have hcx : ({ guessOf c with cur := cur } : RCtx) = guessOf { c with cur := cur } := rfl
-      cases ha : evalAddress defs { c with cur := cur } true with
+      cases ha : evalAddress defs { c with cur := cur } ({ c with cur := cur } : RCtx).canGuess with
       | error e => rw [ha] at h; cases h
       | ok a =>
         rw [ha] at h
-        rw [hcx, evalAddress_mono defs _ _ a ha]
+        rw [hcx, guessOf_canGuess, evalAddress_mono defs _ _ a ha]
         simp only at h ⊢
         exact ih.once _ _ _ _ _ _ _ _ h
     | instr src ref =>
